@@ -54,3 +54,32 @@ Definition isi_of (b : builder) : isi :=
      i_interval := match b_interval b with Some d => d | None => 0 end;
      i_admin := match b_admin b with Some a => a | None => [] end;
      i_iname := match b_iname b with Some n => n | None => gen_default_iname end |}.
+
+(* ---- which fields each setter of the source assigns (regenerated: Gen/BuilderTab.v gen_setter_footprints) against what
+        the model's [apply] changes: tcp -> proto (+ the address, not modelled); udp -> proto, local address; relay -> proto ONLY;
+        mode -> mode (compressed / uncompressed delegate to it); every isi_* setter -> its own option; the remaining setters
+        write connection options the handshake does not depend on.  A setter that starts writing a second field (e.g. the
+        size mode from relay()) is behaviour the model lacks. ---- *)
+Definition model_footprints : list (string * list string) := [
+  ("tcp", ["proto"; "remote"]); ("udp", ["proto"; "remote"; "udp_local_address"]); ("relay", ["proto"]);
+  ("relay_websocket", ["relay_websocket"]); ("connect_timeout", ["connect_timeout"]);
+  ("mode", ["mode"]); ("compressed", ["->mode"]); ("uncompressed", ["->mode"]);
+  ("verify_version", ["verify_version"]); ("tcp_nodelay", ["tcp_nodelay"]);
+  ("relay_select_host", ["relay_select_host"]); ("relay_spectator_password", ["relay_spectator_password"]);
+  ("relay_admin_password", ["relay_admin_password"]);
+  ("isi_admin_password", ["isi_admin_password"]); ("isi_reqi", ["isi_reqi"]); ("isi_flags", ["isi_flags"]);
+  ("isi_flag_mci", ["isi_flags"]); ("isi_flag_local", ["isi_flags"]); ("isi_flag_mso_cols", ["isi_flags"]);
+  ("isi_flag_nlp", ["isi_flags"]); ("isi_flag_con", ["isi_flags"]); ("isi_flag_obh", ["isi_flags"]);
+  ("isi_flag_hlv", ["isi_flags"]); ("isi_flag_axm_load", ["isi_flags"]); ("isi_flag_axm_edit", ["isi_flags"]);
+  ("isi_flag_req_join", ["isi_flags"]);
+  ("isi_prefix", ["isi_prefix"]); ("isi_iname", ["isi_iname"]); ("isi_interval", ["isi_interval"])
+]%string.
+Fixpoint strs_eqb (a b : list string) : bool :=
+  match a, b with [], [] => true | x :: a', y :: b' => String.eqb x y && strs_eqb a' b' | _, _ => false end.
+Fixpoint fp_eqb (a b : list (string * list string)) : bool :=
+  match a, b with
+  | [], [] => true
+  | (n, ws) :: a', (n', ws') :: b' => String.eqb n n' && strs_eqb ws ws' && fp_eqb a' b'
+  | _, _ => false
+  end.
+Definition footprints_tied : bool := fp_eqb gen_setter_footprints model_footprints.
